@@ -240,6 +240,9 @@ class PositionHlCommander:
         :return:
         """
 
+        if not self._is_flying:
+            raise Exception('Can not move on the ground. Take off first!')
+
         z = self._height(z)
 
         dx = x - self._x
